@@ -60,11 +60,14 @@ type Staff struct {
 	Rate    float64
 	Hired   time.Time
 	BadgeNo string
+	// Sponsor: a nullable fk to groups (restrict), declared under the same field name by BOTH child stores
+	Sponsor *string
 }
 
 type PX struct {
 	Person
-	Memo string
+	Memo    string
+	Sponsor *string
 }
 
 type Badge struct {
@@ -188,6 +191,7 @@ func (s *staffStrategy) FillEntity(e *Staff, b *boltz.TypedBucket) {
 		e.Rate = -1
 	}
 	e.Hired = b.GetTimeOrDefault("hired", time.Time{})
+	e.Sponsor = b.GetString("sponsor")
 }
 func (s *staffStrategy) PersistEntity(e *Staff, ctx *boltz.PersistContext) {
 	s.people.GetEntityStrategy().PersistEntity(&e.Person, ctx.GetParentContext())
@@ -197,6 +201,7 @@ func (s *staffStrategy) PersistEntity(e *Staff, ctx *boltz.PersistContext) {
 	ctx.SetInt64("salary", salary)
 	ctx.Bucket.SetFloat64("rate", rate, ctx.FieldChecker)
 	ctx.SetTimeP("hired", &hired)
+	ctx.SetStringP("sponsor", e.Sponsor)
 }
 
 // staffDerived: the values of the staff fields that follow from the level.
@@ -211,10 +216,12 @@ func (s *pxStrategy) FillEntity(e *PX, b *boltz.TypedBucket) {
 	_, err := s.people.LoadEntity(b.Tx(), e.Id, &e.Person)
 	b.SetError(err)
 	e.Memo = b.GetStringWithDefault("memo", "")
+	e.Sponsor = b.GetString("sponsor")
 }
 func (s *pxStrategy) PersistEntity(e *PX, ctx *boltz.PersistContext) {
 	s.people.GetEntityStrategy().PersistEntity(&e.Person, ctx.GetParentContext())
 	ctx.SetString("memo", e.Memo)
+	ctx.SetStringP("sponsor", e.Sponsor)
 }
 
 type badgeStrategy struct{}
@@ -427,10 +434,13 @@ func personParentMapper(entity boltz.Entity) boltz.Entity {
 func NewStores(variant int) *Stores {
 	s := &Stores{}
 	base := []string{rootBucket}
+	if variant&32 != 0 {
+		base = []string{rootBucket, "base2"} // a base path of two segments
+	}
 	if variant&4 != 0 {
 		// the same path in a slice with spare capacity (as a path built with append has): whoever extends it in place
 		// shares the backing array with everybody else who did
-		base = append(make([]string, 0, 8), rootBucket)
+		base = append(make([]string, 0, 8), base...)
 	}
 
 	s.Depts = &DeptStore{BaseStore: boltz.NewBaseStore(boltz.StoreDefinition[*Dept]{
@@ -588,6 +598,11 @@ func NewStores(variant int) *Stores {
 	mm := s.Memos
 	mm.AddIdSymbol("id", ast.NodeTypeString)
 	mm.AddFkConstraint(mm.AddFkSymbol("topic", g), false, boltz.CascadeDelete) // not nullable
+
+	// sibling child stores wiring a field of the SAME name to the same target (two constraints that differ in nothing
+	// but the store they belong to)
+	st.AddFkConstraint(st.AddFkSymbol("sponsor", g), true, boltz.CascadeNone)
+	px.AddFkConstraint(px.AddFkSymbol("sponsor", g), true, boltz.CascadeNone)
 
 	// a link collection one side of which lives in the child store: staff.leading <-> groups.leads
 	st.symLeading = st.AddFkSetSymbol("leading", g)
